@@ -222,7 +222,7 @@ pub fn c10(ctx: &Ctx) -> PropResult {
         stats,
         rule: format!("registry-driven sweep: every procedure of CORE, MATH, STRING, MAP, IO, STYLE, TIME found in the live registry (except INPUT*/RANDOM/TIME, see C12/C15) applied to argument tuples over {} exemplars per position (all tuples when they fit the budget, otherwise every exemplar at every position plus random tuples); every statement form applied to every exemplar; random stateful programs calling library procedures; in-process under catch_unwind with a statement budget; non-trivial = ended normally or with a runtime error; the same call site run twice with the name re-bound in between (user procedure with fewer parameters / IMPORT of the library module, both orders); library procedures that build lists called twice with the first result changed in between; 64 texts that are fragments of number syntax through the text procedures; the type of every result (r == \"\" + r, LENGTH(r)) besides its text; ill-typed operations on long texts with multi-byte characters at every offset; texts of 255 .. 1100 bytes with empty, short and long patterns", EXEMPLARS.len()),
         exhaustive: false,
-        notes: vec![],
+        notes: vec!["round 16: texts with multi-byte characters indexed at every position up to and beyond their byte length; round 17: SUBSTRING with eight positions x eight counts at the limits of the machine integers x three texts".into()],
     }
 }
 
@@ -598,7 +598,7 @@ pub fn c15(ctx: &Ctx) -> PropResult {
         stats,
         rule: "every MATH procedure of the live registry on 26 special values (zeros, domain boundaries, huge, inf, NaN) and random decimals; multi-argument procedures with asymmetric random arguments; random decimal literals (1-25 digits, with and without fraction) displayed, converted to text and back (TO_NUMBER of the text == the number, in-language), and combined arithmetically; RANDOM on all integer pairs a <= b in [-3,3] with repeated draws (range and integrality checked in-language on the implementation), edge ranges; compared with the model: output text exact (transcendental functions: both sides call the platform's libm); exact powers among the arguments; results of procedures libm has are compared exactly, ASINH / ACOSH / ATANH numerically; every multiple of 1/8 in [-50, 50] through every one-argument procedure; both ends of sixteen RANDOM ranges seen in 400 draws (implementation only)".into(),
         exhaustive: false,
-        notes: vec![],
+        notes: vec!["round 16: RANDOM on 57 ranges whose width sits at the limits of the 8 / 16 / 32-bit integers (in range, whole)".into()],
     }
 }
 
@@ -757,7 +757,7 @@ pub fn c16(ctx: &Ctx) -> PropResult {
         stats,
         rule: "histories of MAP_INSERT / MAP_GET / MAP_CONTAINS_KEY on two maps with keys {1, 1.0, 0, -0, \"1\", TRUE, FALSE, NULL, NaN, 2, \"\", \"a\", 0.5}: all histories of length 2 (after an initial insert; quick: a sample), random histories of length 3-40, each followed by the sizes of MAP_KEYS / MAP_VALUES and a membership probe per key; every non-map value as the map argument of every MAP procedure; every result line compared with the model (association list proved equal to the ideal finite map); MAP_KEYS / MAP_VALUES called twice with the first result changed in between (filled, empty, new map); values equal to the stored one but distinguishable (0 / -0, equal-contents lists); stored lists that come out of MAP_GET / MAP_INSERT / MAP_VALUES changed through the result and through the original; maps as values of maps (itself, an alias, another, lists of maps); key pairs that agree to nine decimals but are different numbers in the language; whole-number keys beyond the 64-bit integers; maps of 100 .. 2050 entries".into(),
         exhaustive: !ctx.quick(),
-        notes: vec!["numeric keys that are == in the language but not IEEE-equal (within epsilon), and infinite keys, are outside the generator: known finding, see known_findings.txt".into()],
+        notes: vec!["numeric keys that are == in the language but not IEEE-equal (within epsilon), and infinite keys, are outside the generator: known finding, see known_findings.txt".into(), "round 16: maps that live only during a call, one after the other (MAP_KEYS / MAP_VALUES of a map in the storage of a dropped one)".into()],
     }
 }
 
